@@ -175,6 +175,25 @@ def run(ctx):
             for (k, kind, detail) in ox.compare(c, sp_obs, again, check_meta=False):
                 ctx.violation(sig_of(c, 'earlier-result-changed-by-later-call', mode), dict(detail, K=c['K']), case={'case': c, 'spec': spec[c['id']], 'mode': mode})
         nhist += 1
+    # 2b. a scratch buffer that cannot hold double precision complex numbers (complex64) is either refused or does not change the result
+    for c in rng.sample(ok_cases, min(25, len(ok_cases))):
+        g = geoms[c['gi']]
+        ctx.case(('single-precision-scratch', c['id']))
+        ref_ = run_one(c, 'none', None)[-1]
+        if ref_.get('err', 'none') != 'none':
+            continue
+        c64 = dict(c)
+        c64['steps'] = [dict(s_) for s_ in c['steps']]
+        c64['steps'][-1]['scratch'] = np.full((g['Kr'] + 1, g['Kc'] + 2), 3 - 1j, dtype=np.complex64)
+        try:
+            got_ = ox.run_real(lentil, c64)[-1]
+        except Exception:
+            got_ = {'err': 'raised'}
+        if got_.get('err', 'none') != 'none':
+            continue                                   # refused
+        dev = float(np.abs(np.asarray(got_['field']) - np.asarray(ref_['field'])).max() / (np.abs(np.asarray(ref_['field'])).max() or 1.0))
+        if dev > 1e-12:
+            ctx.violation({'kind': 'scratch-changes-the-result', 'scratch': 'complex64'}, {'K': c['K'], 'max_difference_over_peak': dev}, case=None)
     # 3. where lambda' = lambda (exact integer 1/alpha): propagate_fft against propagate_dft of the same real wavefront
     ncmp = 0
     for c in cases:
